@@ -289,8 +289,9 @@ class SourceSys:
         if self.kind != "stdin":
             ops += [("read", None), ("read", -1)]
         ops += [("open",), ("close",), ("is_open",)]
-        if not self.open:
-            ops += [("read", 0)]  # what read(0) means on an open source is left open; on a closed one it is an I/O error
+        # read(0): on a closed source an I/O error; on an open one it hands out no audio (None or an empty object - the
+        # statement leaves that open) and consumes none
+        ops += [("read", 0)]
         if self.kind == "buffer":
             ops += [("rewind",), ("get_pos",), ("get_pos_s",), ("get_pos_ms",)]
             for p in range(-n - 1, n + 2):
@@ -324,6 +325,8 @@ class SourceSys:
 
                     size = np.int64(size)
                 out = r.read(size)
+                if size == 0 and (out is None or len(out) == 0):
+                    return ("nothing",)
                 if out is None:
                     return ("none",)
                 if not isinstance(out, (bytes, bytearray)):
@@ -370,6 +373,8 @@ class SourceSys:
             if not self.open:
                 return ("raise", "io-error")
             rem = n - self.cur
+            if op[1] == 0:
+                return ("nothing",)
             if rem == 0:
                 return ("none",)
             size = op[1]
